@@ -10,7 +10,8 @@ THEOREMS = ["C12_default_roundtrip_partial", "C12_description_roundtrip_partial"
             "C12_members_roundtrip_refuted", "C12_description_roundtrip_block",
             "C12_members_roundtrip_kinds", "C12_directive_roundtrip", "C12_text_roundtrip_type_references",
             "C12_text_is_ast_print_partial", "C12_text_parse_partial", "C12_members_roundtrip_document",
-            "C12_text_roundtrip_partial", "C12_fixpoint_partial", "C12_fixpoint_declares_again"]
+            "C12_text_roundtrip_partial", "C12_fixpoint_partial", "C12_fixpoint_declares_again",
+            "C12_document_rules_ok", "C12_members_roundtrip_guarded"]
 AXIOMS_OK = []
 RUN_MODULE = "Run.C12run Schema.SdlPrint Spec.SdlRoundtripSpec"
 AGREE = "agree_C12"
